@@ -2,7 +2,7 @@ CONF = {
     "level": "exploration",
     "technique": "property-based robustness testing (rapid) in an isolated worker with deadline: edge-operand programs, every built-in of builtin.yml with boundary arguments, lifecycle VCLs with restarts/recursion/include cycles, hostile requests; oracle = returns-or-reports, bounded restarts",
     "level_text": "Totality/boundedness oracle only (no value expectations): every generated program/request must end in a response or a reported error, without panic, fatal error, worker death or deadline overrun, with vcl_recv entered at most 4 times per request. Hangs and stack overflows are caught by the worker isolation. Exploration of generated cases only.",
-    "campaigns": [rapid("rapid", 16000, 400000, bq=90), rapid("builtins", 48000, 1200000, bq=90, env={"VERIF_C08_KIND": "builtin"}), rapid("arith", 40000, 1000000, bq=90, env={"VERIF_C08_KIND": "arith"})],
+    "campaigns": [rapid("rapid", 16000, 400000, bq=90), rapid("builtins", 48000, 1200000, bq=90, env={"VERIF_C08_KIND": "builtin"}), rapid("arith", 40000, 1000000, bq=90, env={"VERIF_C08_KIND": "arith"}), rapid("testsub", 24000, 600000, bq=90, env={"VERIF_C08_KIND": "testsub"})],
     "assumptions": [
         "a case that overruns a 20 s deadline three times in a row on fresh workers is a hang (cases take milliseconds)",
         "origin fetches go to a loopback server owned by the harness",
